@@ -22,6 +22,7 @@ CONFIGS = {
     "nodefault": ["--no-default-features"],
     "all": ["--all-features"],
     "minext": ["--no-default-features", "--features", "unsize,arc-swap"],
+    "optnostd": ["--no-default-features", "--features", "serde,stable_deref_trait"],  # the optional integrations without std
 }
 
 
